@@ -1357,9 +1357,15 @@ func validateCrossVolumeStructure(vol *Volume) error {
 				return fmt.Errorf("structure %q overlaps with the preceding structure %q", ps.Name, vol.Structure[pidx-1].Name)
 			}
 			previousEnd = *(ps.Offset) + quantity.Offset(ps.Size)
+			if previousEnd < *(ps.Offset) {
+				return fmt.Errorf("structure %q end offset is too large", ps.Name)
+			}
 		} else {
-			previousEnd += quantity.Offset(ps.Size)
-
+			end := previousEnd + quantity.Offset(ps.Size)
+			if end < previousEnd {
+				return fmt.Errorf("structure %q end offset is too large", ps.Name)
+			}
+			previousEnd = end
 		}
 	}
 	return nil
